@@ -178,11 +178,57 @@ func checkC14(w *World, r *Report) {
 	}
 	r.floor("C14.presence", "lookups in the other map", np, 2)
 	// symmetric shape: size test in each collection case
+	// a case that only hands both operands to one function of the package and returns its result is judged
+	// by that function's body
+	delegate := func(reg map[*ssa.BasicBlock]bool) map[*ssa.BasicBlock]bool {
+		var call *ssa.Call
+		for b := range reg {
+			for _, in := range b.Instrs {
+				c, ok := in.(*ssa.Call)
+				if !ok {
+					continue
+				}
+				h := c.Call.StaticCallee()
+				if h == nil || h == eq || h.Pkg != eq.Pkg || h.Parent() != nil || len(h.Blocks) == 0 {
+					continue
+				}
+				hasA, hasB := false, false
+				for _, arg := range c.Call.Args {
+					if arg == a {
+						hasA = true
+					}
+					if arg == bpar {
+						hasB = true
+					}
+				}
+				if hasA && hasB {
+					if call != nil {
+						return reg
+					}
+					call = c
+				}
+			}
+		}
+		if call == nil {
+			return reg
+		}
+		for b := range reg {
+			if ret, ok := b.Instrs[len(b.Instrs)-1].(*ssa.Return); ok && ret.Results[0] != ssa.Value(call) {
+				return reg
+			}
+		}
+		out := map[*ssa.BasicBlock]bool{}
+		for _, b := range call.Call.StaticCallee().Blocks {
+			out[b] = true
+		}
+		return out
+	}
 	for _, k := range []string{"types.List", "types.Vector", "types.HashMap", "types.Set"} {
 		reg, ok := regs[k]
 		if !ok {
 			continue
 		}
+		reg = delegate(reg)
 		okLen := false
 		for b := range reg {
 			if iff := blockIf(b); iff != nil {
@@ -1286,23 +1332,76 @@ func checkC19(w *World, r *Report) {
 	}
 	// repl
 	if repl := w.Fn("", "REPL"); repl != nil {
+		// the module calls REPL makes, in order, looking through unexported helpers of the package
+		// (their parameters stand for the arguments they are called with)
 		var seq []string
 		okArgs := true
-		for _, b := range repl.Blocks {
-			for _, in := range b.Instrs {
-				c, ok := in.(*ssa.Call)
-				if !ok || c.Call.StaticCallee() == nil || !strings.HasPrefix(fnPkgPath(c.Call.StaticCallee()), modPath) {
-					continue
+		var paramOfType = func(pred func(types.Type) bool) ssa.Value {
+			for _, p := range repl.Params {
+				if pred(p.Type()) {
+					return p
 				}
-				seq = append(seq, c.Call.StaticCallee().Name())
-				switch c.Call.StaticCallee().Name() {
-				case "READ":
-					okArgs = okArgs && c.Call.Args[0] == ssa.Value(repl.Params[2]) && c.Call.Args[2] == ssa.Value(repl.Params[1])
-				case "EVAL":
-					okArgs = okArgs && c.Call.Args[0] == ssa.Value(repl.Params[0]) && c.Call.Args[2] == ssa.Value(repl.Params[1])
+			}
+			return nil
+		}
+		isEnvT := func(t types.Type) bool { return strings.HasSuffix(t.String(), "types.EnvType") }
+		isStr := func(t types.Type) bool { b, ok := t.Underlying().(*types.Basic); return ok && b.Kind() == types.String }
+		pCtx, pEnv, pSrc := paramOfType(isContext), paramOfType(isEnvT), paramOfType(isStr)
+		var readRes, evalRes ssa.Value
+		argOfType := func(args []ssa.Value, pred func(types.Type) bool) ssa.Value {
+			for _, a := range args {
+				if pred(a.Type()) {
+					return a
+				}
+			}
+			return nil
+		}
+		var walk func(fn *ssa.Function, subst map[ssa.Value]ssa.Value, depth int)
+		walk = func(fn *ssa.Function, subst map[ssa.Value]ssa.Value, depth int) {
+			res := func(v ssa.Value) ssa.Value {
+				if s, ok := subst[v]; ok {
+					return s
+				}
+				return v
+			}
+			for _, b := range fn.Blocks {
+				for _, in := range b.Instrs {
+					c, ok := in.(*ssa.Call)
+					if !ok || c.Call.StaticCallee() == nil || !strings.HasPrefix(fnPkgPath(c.Call.StaticCallee()), modPath) {
+						continue
+					}
+					callee := c.Call.StaticCallee()
+					var args []ssa.Value
+					for _, a := range c.Call.Args {
+						args = append(args, res(a))
+					}
+					switch callee.Name() {
+					case "READ":
+						okArgs = okArgs && argOfType(args, isStr) == pSrc && argOfType(args, isEnvT) == pEnv && pSrc != nil && pEnv != nil
+						readRes = extractOf(c, 0)
+					case "EVAL":
+						okArgs = okArgs && argOfType(args, isContext) == pCtx && argOfType(args, isEnvT) == pEnv && pCtx != nil
+						okArgs = okArgs && readRes != nil && argOfType(args, isMalType) == readRes
+						evalRes = extractOf(c, 0)
+					case "PRINT":
+						okArgs = okArgs && evalRes != nil && len(args) == 1 && args[0] == evalRes
+					default:
+						if !callee.Object().Exported() && callee.Pkg == repl.Pkg && depth < 3 {
+							inner := map[ssa.Value]ssa.Value{}
+							for i, p := range callee.Params {
+								if i < len(args) {
+									inner[p] = args[i]
+								}
+							}
+							walk(callee, inner, depth+1)
+							continue
+						}
+					}
+					seq = append(seq, callee.Name())
 				}
 			}
 		}
+		walk(repl, map[ssa.Value]ssa.Value{}, 0)
 		r.check(strings.Join(seq, ",") == "READ,EVAL,PRINT" && okArgs, "C19.repl", repl, "REPL", repl.Pos(), "READ, EVAL, PRINT with the caller's scope and context", "REPL is not READ/EVAL/PRINT on the same scope and context: "+strings.Join(seq, ","))
 	} else {
 		r.undecided("C19.repl", nil, "REPL", token.NoPos, "function no longer resolves")
@@ -1521,51 +1620,107 @@ func checkC20(w *World, r *Report) {
 	r.floor("C20.siblings", "adapter closures", nAd, 6)
 	// units
 	incMin, incMax := false, false
-	for _, b := range callFn.Blocks {
-		for _, in := range b.Instrs {
-			st, ok := in.(*ssa.Store)
-			if !ok {
+	variadic := ssa.Value(callFn.Params[len(callFn.Params)-1])
+	// the bounds may be worked out by a function of the package called from the builder: its parameters
+	// stand for the arguments, its results for the values stored into the bound cells
+	guardOf := func(fn *ssa.Function, b *ssa.BasicBlock) int {
+		g := 0
+		for _, d := range fn.Blocks {
+			iff := blockIf(d)
+			if iff == nil || !edgeDominates(d, 0, b) {
 				continue
 			}
-			al, ok := st.Addr.(*ssa.Alloc)
-			if !ok {
-				continue
+			if derivesFromImplements(e, iff.Cond, 0) {
+				g |= 1
 			}
-			bo, ok := st.Val.(*ssa.BinOp)
-			if !ok || bo.Op != token.ADD {
-				continue
-			}
-			k, ok := bo.Y.(*ssa.Const)
-			if !ok || k.Value == nil || k.Int64() != 1 {
-				continue
-			}
-			ld, ok := bo.X.(*ssa.UnOp)
-			if !ok || ld.X != ssa.Value(al) {
-				continue
-			}
-			// guarded by contextRequired && len(args) > 0
-			g := 0
-			for _, d := range callFn.Blocks {
-				iff := blockIf(d)
-				if iff == nil || !edgeDominates(d, 0, b) {
-					continue
-				}
-				if derivesFromImplements(e, iff.Cond, 0) {
-					g |= 1
-				}
-				if bo, ok := iff.Cond.(*ssa.BinOp); ok {
-					if t, _, ok := e.linOf(bo.X); ok && t.Kind == 1 && t.K.Root == ssa.Value(callFn.Params[len(callFn.Params)-1]) {
+			if bo, ok := iff.Cond.(*ssa.BinOp); ok {
+				if t, _, ok := e.linOf(bo.X); ok && t.Kind == 1 {
+					root := t.K.Root
+					if p, isP := root.(*ssa.Parameter); isP && p.Parent() != callFn {
+						all := true
+						args := w.callSiteArgs(p)
+						for _, a := range args {
+							if a != variadic {
+								all = false
+							}
+						}
+						if all && len(args) > 0 {
+							root = variadic
+						}
+					}
+					if root == variadic {
 						g |= 2
 					}
 				}
 			}
-			if g == 3 {
-				// which bound: the cell handed to the builders as minimum / maximum
-				switch boundRole(callFn, al, argsCtx) {
-				case 1:
-					incMin = true
-				case 2:
-					incMax = true
+		}
+		return g
+	}
+	mark := func(al *ssa.Alloc) {
+		// which bound: the cell handed to the builders as minimum / maximum
+		switch boundRole(callFn, al, argsCtx) {
+		case 1:
+			incMin = true
+		case 2:
+			incMax = true
+		}
+	}
+	isInc := func(v ssa.Value) (*ssa.BinOp, bool) {
+		bo, ok := v.(*ssa.BinOp)
+		if !ok || bo.Op != token.ADD {
+			return nil, false
+		}
+		k, ok := bo.Y.(*ssa.Const)
+		if !ok || k.Value == nil || k.Int64() != 1 {
+			return nil, false
+		}
+		return bo, true
+	}
+	for _, b := range callFn.Blocks {
+		for _, in := range b.Instrs {
+			switch x := in.(type) {
+			case *ssa.Store:
+				al, ok := x.Addr.(*ssa.Alloc)
+				if !ok {
+					continue
+				}
+				if bo, ok := isInc(x.Val); ok {
+					ld, ok := bo.X.(*ssa.UnOp)
+					if !ok || ld.X != ssa.Value(al) {
+						continue
+					}
+					// guarded by contextRequired && len(args) > 0
+					if guardOf(callFn, b) == 3 {
+						mark(al)
+					}
+					continue
+				}
+				// result j of a bounds helper stored into the cell
+				ex, ok := x.Val.(*ssa.Extract)
+				if !ok {
+					continue
+				}
+				hc, ok := ex.Tuple.(*ssa.Call)
+				if !ok {
+					continue
+				}
+				h := hc.Call.StaticCallee()
+				if h == nil || h.Pkg != callFn.Pkg || h.Parent() != nil || len(h.Blocks) == 0 {
+					continue
+				}
+				for _, hb := range h.Blocks {
+					for _, hin := range hb.Instrs {
+						bo, ok := isInc(ssaValueOf(hin))
+						if !ok || guardOf(h, hb) != 3 {
+							continue
+						}
+						// the increment reaches result number ex.Index
+						for _, rt := range h.Blocks {
+							if ret, ok := rt.Instrs[len(rt.Instrs)-1].(*ssa.Return); ok && ex.Index < len(ret.Results) && reachesThroughPhis(bo, resolveRet(ret.Results[ex.Index]), map[ssa.Value]bool{}) {
+								mark(al)
+							}
+						}
+					}
 				}
 			}
 		}
@@ -1714,18 +1869,90 @@ func checkC20(w *World, r *Report) {
 	aud.run()
 	r.check(w.recoverHandler(recov), "C20.panic", recov, "recover()", recov.Pos(), "called directly by the deferred function", "_recover does not call recover() itself")
 	if ge := w.Fn("lisperror", "NewGoError"); ge != nil {
-		nfmt, okW := 0, true
+		// every outermost fmt.Errorf (one that is not itself an operand of another) formats with %w an operand
+		// that is the panic value itself (asserted to error) or an error built from it
+		var errorfs []*ssa.Call
 		for _, b := range ge.Blocks {
 			for _, in := range b.Instrs {
-				if c, ok := in.(*ssa.Call); ok && c.Call.StaticCallee() != nil && c.Call.StaticCallee().Name() == "Errorf" {
-					f, _ := constString(c.Call.Args[0])
-					if strings.Contains(f, "%w") {
-						nfmt++
-					}
+				if c, ok := in.(*ssa.Call); ok && c.Call.StaticCallee() != nil && c.Call.StaticCallee().Name() == "Errorf" && fnPkgPath(c.Call.StaticCallee()) == "fmt" {
+					errorfs = append(errorfs, c)
 				}
 			}
 		}
-		r.check(nfmt >= 2 && okW, "C20.panic", ge, "wrapping of the original", ge.Pos(), "%w", "the panic value is not wrapped with %w")
+		var panicVal ssa.Value
+		for _, p := range ge.Params {
+			if _, isIface := p.Type().Underlying().(*types.Interface); isIface && !isErrorType(p.Type()) {
+				panicVal = p
+			}
+		}
+		var fromPanic func(v ssa.Value, depth int) bool
+		fromPanic = func(v ssa.Value, depth int) bool {
+			if depth > 8 || v == nil {
+				return false
+			}
+			if v == panicVal {
+				return true
+			}
+			switch x := v.(type) {
+			case *ssa.MakeInterface:
+				return fromPanic(x.X, depth+1)
+			case *ssa.ChangeInterface:
+				return fromPanic(x.X, depth+1)
+			case *ssa.TypeAssert:
+				return fromPanic(x.X, depth+1)
+			case *ssa.Extract:
+				return fromPanic(x.Tuple, depth+1)
+			case *ssa.Phi:
+				for _, op := range x.Edges {
+					if !fromPanic(op, depth+1) {
+						return false
+					}
+				}
+				return len(x.Edges) > 0
+			case *ssa.Call:
+				if x.Call.StaticCallee() != nil && x.Call.StaticCallee().Name() == "Errorf" && len(x.Call.Args) == 2 {
+					for _, el := range sliceLiteralElems(x.Call.Args[1]) {
+						if fromPanic(el, depth+1) {
+							return true
+						}
+					}
+				}
+			}
+			return false
+		}
+		isOperand := func(c *ssa.Call) bool {
+			for _, o := range errorfs {
+				if o == c || len(o.Call.Args) != 2 {
+					continue
+				}
+				for _, el := range sliceLiteralElems(o.Call.Args[1]) {
+					if reachesThroughPhis(c, unboxed(el), map[ssa.Value]bool{}) {
+						return true
+					}
+				}
+			}
+			return false
+		}
+		nOuter, okW := 0, panicVal != nil
+		for _, c := range errorfs {
+			if isOperand(c) {
+				continue
+			}
+			nOuter++
+			f, _ := constString(c.Call.Args[0])
+			wraps := false
+			if strings.Count(f, "%w") == 1 && len(c.Call.Args) == 2 {
+				for _, el := range sliceLiteralElems(c.Call.Args[1]) {
+					if isErrorType(unboxed(el).Type()) && fromPanic(el, 0) {
+						wraps = true
+					}
+				}
+			}
+			if !wraps {
+				okW = false
+			}
+		}
+		r.check(nOuter >= 1 && okW, "C20.panic", ge, "wrapping of the original", ge.Pos(), "every error built from the panic value wraps it (or an error made from it) with %w", "the panic value is not wrapped with %w")
 	}
 	// name
 	okLower, okRepl := false, false
@@ -1818,6 +2045,14 @@ func derivesFromImplements(e *Engine, v ssa.Value, depth int) bool {
 		return false
 	}
 	switch x := v.(type) {
+	case *ssa.Parameter:
+		// a parameter of a function of the package stands for the arguments at its call sites
+		for _, a := range e.w.callSiteArgs(x) {
+			if derivesFromImplements(e, a, depth+1) {
+				return true
+			}
+		}
+		return false
 	case *ssa.Call:
 		return x.Call.IsInvoke() && x.Call.Method.Name() == "Implements"
 	case *ssa.Phi:
@@ -1886,4 +2121,75 @@ func boundRole(callFn *ssa.Function, cell *ssa.Alloc, builder *ssa.Function) int
 		}
 	}
 	return 0
+}
+
+
+func ssaValueOf(in ssa.Instruction) ssa.Value {
+	v, _ := in.(ssa.Value)
+	return v
+}
+
+// reachesThroughPhis: value v is target, or an operand of the phis target merges.
+func reachesThroughPhis(v, target ssa.Value, seen map[ssa.Value]bool) bool {
+	if v == target {
+		return true
+	}
+	if seen[target] {
+		return false
+	}
+	seen[target] = true
+	if phi, ok := target.(*ssa.Phi); ok {
+		for _, op := range phi.Edges {
+			if reachesThroughPhis(v, op, seen) {
+				return true
+			}
+		}
+	}
+	return false
+}
+
+// callSiteArgs: the arguments passed for parameter p at the static call sites of its function (same package).
+func (w *World) callSiteArgs(p *ssa.Parameter) []ssa.Value {
+	fn := p.Parent()
+	idx := -1
+	for i, q := range fn.Params {
+		if q == p {
+			idx = i
+		}
+	}
+	if idx < 0 || fn.Pkg == nil {
+		return nil
+	}
+	var out []ssa.Value
+	for _, f := range w.Funcs {
+		if f.Pkg != fn.Pkg && (f.Parent() == nil || f.Parent().Pkg != fn.Pkg) {
+			continue
+		}
+		if isTestFunc(w, f) {
+			continue
+		}
+		for _, b := range f.Blocks {
+			for _, in := range b.Instrs {
+				if ci, ok := in.(ssa.CallInstruction); ok && ci.Common().StaticCallee() == fn && idx < len(ci.Common().Args) {
+					out = append(out, ci.Common().Args[idx])
+				}
+			}
+		}
+	}
+	return out
+}
+
+
+// unboxed: the value boxed / converted by MakeInterface or ChangeInterface.
+func unboxed(v ssa.Value) ssa.Value {
+	for {
+		switch x := v.(type) {
+		case *ssa.MakeInterface:
+			v = x.X
+		case *ssa.ChangeInterface:
+			v = x.X
+		default:
+			return v
+		}
+	}
 }
